@@ -5,6 +5,15 @@ ROOT = os.path.dirname(os.path.dirname(os.path.abspath(__file__)))
 
 # id -> (technique, level text, level note, design ref)
 CLAIMED = {
+ "C01": ("proptest over choice tapes decoded into (specification, conformant forest, per-tag presentation); oracle = generator-side expected sequence (round trip)",
+         "40 000 (quick) / 1.5 M (thorough) generated documents under generated specifications and the macro-derived RichSpec are written through TagWriter with every presentation (default, width 1-8, unknown size, Full, raw tags) and read back by the strict iterator; the expected item sequence is the generator's own flattening of the tree, so a symmetric writer+reader bug still shows whenever it changes a value or the structure. Sampling, not exhaustive: depth <= 7, <= 60 elements, payload <= 16 385 bytes (2 MiB in a thorough sub-stage).",
+         "trusted: generator-side flatten(), DynSpec consistency; ambiguous shapes (global element right after an unknown-size master, unknown size on masters with placeholder paths) are excluded by construction and counted", "4.1"),
+ "C07": ("proptest-generated forests × exhaustive enumeration of all 2^m unknown-size subsets (m <= 8), two encoders, equality with the all-known-size reading",
+         "For every generated forest with at most 8 master instances every subset of them is encoded with unknown size (real writer: 8-byte marker; reference encoder: all-ones in width 1-8) and the strict reading must equal flatten(forest) including the position of every End; 64 sampled subsets beyond 8 masters. Exhaustive over subsets per document, sampled over documents/specifications.",
+         "trusted: reference encoder, generator-side flatten(); ref_closes() decides which subsets are ambiguous and therefore skipped (counted)", "4.7"),
+ "C12": ("proptest-generated documents × exhaustive enumeration of every cut position; oracle = layout of the independent reference encoder",
+         "Every byte position of every generated document (canonical and non-canonical encodings, known/unknown sizes, 1-8 byte ids) is used as truncation point under a slice source, 1-byte reads or pseudo-random chunking and several capacities; expected prefix, closing Ends and every field of the UnexpectedEOF error are computed from the encoder's layout, never from the reader. Exhaustive over cuts per document, sampled over documents.",
+         "trusted: reference encoder layout; Ends between the last complete tag and the incomplete one are optional (the statement does not fix them)", "4.12"),
  "C15": ("exhaustive enumeration of short values/slices + boundary lattice + proptest random values against an independent u128/i128 vint codec",
          "Every value below 2^21 (quick) / 2^26 (thorough) in all nine encoder variants, |v| < 2^20 / 2^25 signed, every byte slice of length <= 2 / <= 3, every id candidate below 2^24, a lattice around every power-of-two boundary, and random 64-bit values are compared with a reference codec written from RFC 8794. Exhaustive inside those bounds, sampled outside; the functions are pure so there is no state to miss.",
          "trusted: the reference codec in harness/core/src/refmodel.rs (unit-tested against the crate's documented examples); widths 1..8 only", "4.15"),
